@@ -1,7 +1,8 @@
 (* Brew.v — model of the cross-validation bookkeeping of mokapot.brew (C02, C05, C11):
-   OnDiskPsmDataset._split, the row -> fold-model map, make_train_sets, _predict.
+   OnDiskPsmDataset._split, the row -> fold-model map, make_train_sets, _predict, and (R2.22) the
+   ensemble=True branch: _predict_with_ensemble and what brew returns in that mode (C04, C05, C07, C08).
    Definitions only. *)
-From Mokaverif Require Import Model.Base Model.Tdc Model.Calibrate Model.PinCols.
+From Mokaverif Require Import Model.Base Model.Tdc Model.Calibrate Model.PinCols Model.Orders Model.BrewDecision.
 Open Scope nat_scope.
 
 (* ---------- _split ---------- *)
@@ -155,4 +156,149 @@ Definition bw_brew_scores (do_cal : bool) (c k : nat) (thr : Q) (keys : list Z) 
   match bw_split keys k with
   | Err e => Err e
   | Ok folds => bw_predict do_cal c k thr (bw_fold_of folds (length keys)) targets raw
+  end.
+
+(* ====================================================================================
+   brew(ensemble=True)                                                        (R2.22)
+   ==================================================================================== *)
+(* ---------- _predict_with_ensemble(psms, models, max_workers) ----------
+   raws : one list per model IN THE ORDER OF THE LIST `models` handed in; (nth m raws)[r] is the RAW
+   decision value (Model.predict, no calibration) of that model on row r of the file.
+
+   Contract of the numbers (transparent estimators of the harness): every decision value is an integer
+   (or a dyadic rational; all values are then scaled by one common power of two), and k * max|value|
+   stays below 2^53.  np.mean(scores, axis=0) turns the list of k float64 arrays into a (k, n) array,
+   adds its rows in list order (np.add.reduce along axis 0: row 0, += row 1, ...) in float64 and divides
+   by k: under the contract every partial sum is exact, so the returned float is the ONE correctly
+   rounded quotient fl(exact sum / k).  The model returns the exact rational sum / k; the harness
+   compares float(sum / k) bit for bit.  (Proofs/BrewEnsP.v: fl53_exact, ens_float_sum_exact.) *)
+
+(* the predictions of one model: mod.predict(chunk) for every prediction chunk of the file, appended to
+   that model's list, then np.hstack *)
+Definition bw_ens_hstack (c n : nat) (raw_m : list Z) : list Z :=
+  flat_map (map (fun r => nth r raw_m 0%Z)) (bw_chunks c (seq 0 n)).
+
+(* np.add.reduce(axis=0) at row position i: starts from the first model, adds the others in list order *)
+Definition bw_ens_sum_at (cols : list (list Z)) (i : nat) : Z :=
+  match cols with
+  | [] => 0%Z
+  | c0 :: rest => fold_left Z.add (map (fun col => nth i col 0%Z) rest) (nth i c0 0%Z)
+  end.
+
+(* the column sums; errors: chunk size 0; no model: np.mean of an empty list is nan (non-finite: EType,
+   as in Calibrate.v); a file delivering no chunk: np.hstack([]) raises ValueError; rows of different
+   length cannot be stacked (ValueError; unreachable through brew: every model scores every chunk) *)
+Definition bw_ens_sums (c n : nat) (raws : list (list Z)) : result (list Z) :=
+  if Nat.eqb c 0 then Err EValue else
+  match raws with
+  | [] => Err EType
+  | _ =>
+    match bw_chunks c (seq 0 n) with
+    | [] => Err EValue
+    | _ => if forallb (fun rm => Nat.eqb (length rm) n) raws
+           then Ok (map (bw_ens_sum_at (map (bw_ens_hstack c n) raws)) (seq 0 n))
+           else Err EValue
+    end
+  end.
+
+Definition bw_ens_mean (k : nat) (s : Z) : Q := (inject_Z s / inject_Z (Z.of_nat k))%Q.
+
+Definition bw_predict_ens (c n : nat) (raws : list (list Z)) : result (list Q) :=
+  match bw_ens_sums c n raws with
+  | Err e => Err e
+  | Ok sums => Ok (map (bw_ens_mean (length raws)) sums)
+  end.
+
+(* ---------- brew(..., ensemble=True), scores of one collection ----------
+   fitted: the fitted models as (Model.fold, decision values on every row), in the order in which they
+   were delivered (worker threads, or the list of trained models the caller passed).  _split is still
+   called (its errors surface although the folds are not used for prediction);
+   fitted.sort(key=fold); EVERY row is scored by ALL models; no calibration *)
+Definition bw_brew_scores_ens (c k : nat) (keys : list Z) (fitted : list (nat * list Z)) : result (list Q) :=
+  match bw_split keys k with
+  | Err e => Err e
+  | Ok _ => bw_predict_ens c (length keys) (map snd (or_sort_models fitted))
+  end.
+
+(* the reset branch (a pre-trained model that got worse by re-training; taken whatever `ensemble` says):
+   calibrate_scores(_predict_with_ensemble(psms, [model]), test_fdr) — the ensemble of the ONE original
+   model, calibrated over the whole collection.  The mean of one model is its raw score. *)
+Definition bw_reset_scores (c : nat) (thr : Q) (targets : list bool) (raw : list Z) : result (list Q) :=
+  match bw_ens_sums c (length targets) [raw] with
+  | Err e => Err e
+  | Ok sums => calibrate sums targets thr
+  end.
+
+(* ---------- brew(..., ensemble=True): models, scores, descs ----------
+   a fitted fold model as brew sees it *)
+Record bw_fitted : Type := {
+  bf_fold : nat;                 (* Model.fold, 1-based *)
+  bf_trained : bool;             (* is_trained *)
+  bf_feat_pass : nat;            (* targets the best feature accepted on the training rows *)
+  bf_override : bool;
+  bf_best : nat;                 (* best feature: index into the feature columns *)
+  bf_desc : bool;                (* its direction *)
+  bf_raw : list (list Z)         (* per collection: decision value on every row *)
+}.
+(* a collection: spectrum hashes, target flags, feature columns *)
+Record bw_coll : Type := { bc_keys : list Z; bc_targets : list bool; bc_feats : list (list Z) }.
+
+Fixpoint bw_all_ok {A} (l : list (result A)) : result (list A) :=
+  match l with
+  | [] => Ok []
+  | Err e :: _ => Err e
+  | Ok x :: r => match bw_all_ok r with Ok t => Ok (x :: t) | Err e => Err e end
+  end.
+
+Definition bw_sort_fitted (fitted : list bw_fitted) : list bw_fitted :=
+  map snd (or_sort_models (map (fun m => (bf_fold m, m)) fitted)).
+
+(* the score SUMS of every collection under the sorted models (zeros when some model is untrained:
+   scores = [np.zeros(x) for x in data_size]) *)
+Definition bw_brew_ens_sums (c k : nat) (models : list bw_fitted) (files : list bw_coll) : result (list (list Z)) :=
+  match bw_all_ok (map (fun fl => bw_split (bc_keys fl) k) files) with
+  | Err e => Err e
+  | Ok _ =>
+    if forallb bf_trained models
+    then bw_all_ok (map (fun jf => bw_ens_sums c (length (bc_keys (snd jf)))
+                                      (map (fun m => nth (fst jf) (bf_raw m) []) models))
+                        (combine (seq 0 (length files)) files))
+    else Ok (map (fun fl => repeat 0%Z (length (bc_keys fl))) files)
+  end.
+
+(* the comparison with the best feature: update_labels ranks by score, and the mean sum / k (k >= 1)
+   ranks exactly as the sum does (Proofs/BrewEnsP.v: ens_mean_order), so the accepted targets are counted
+   on the integer sums; the decision itself is the SAME function bd_decide as in the per-fold mode *)
+Definition bw_brew_ens_choice (thr : Q) (models : list bw_fitted) (files : list bw_coll) (sums : list (list Z))
+  : result (nat * option nat) :=
+  match bd_pred_total thr (combine sums (map bc_targets files)) with
+  | Err e => Err e
+  | Ok pt => Ok (pt, bd_decide (map (fun m => (bf_feat_pass m, bf_override m)) models) pt)
+  end.
+
+(* brew returns (psms, models, scores, descs): the folds of the returned models, the scores and the descs *)
+Definition bw_brew_ens (c k : nat) (thr : Q) (fitted : list bw_fitted) (files : list bw_coll)
+  : result (list nat * (list (list Q) * list bool)) :=
+  let models := bw_sort_fitted fitted in
+  match bw_brew_ens_sums c k models files with
+  | Err e => Err e
+  | Ok sums =>
+    match bw_brew_ens_choice thr models files sums with
+    | Err e => Err e
+    | Ok (_, None) =>
+        Ok (map bf_fold models,
+            (map (map (bw_ens_mean (if forallb bf_trained models then length models else 1))) sums,
+             map (fun _ => true) files))
+    | Ok (_, Some i) =>
+        match nth_error models i with
+        | None => Err EIndex                      (* unreachable: bd_decide returns an index of the list *)
+        | Some m =>
+            (* _psms.read_data(columns=[feat]).values for every collection; KeyError when it is missing *)
+            match bw_all_ok (map (fun fl => match nth_error (bc_feats fl) (bf_best m) with
+                                            | Some col => Ok (map inject_Z col) | None => Err EKey end) files) with
+            | Err e => Err e
+            | Ok cols => Ok (map bf_fold models, (cols, map (fun _ => bf_desc m) files))
+            end
+        end
+    end
   end.
